@@ -23,17 +23,17 @@ type syncState struct {
 }
 
 type HTTPRun struct {
-	Sc     *Scenario
-	H      *Hub
-	M      *Model
-	Stats  map[string]int64
-	trace  []byte
-	Start  time.Time
-	Pool   []string
-	sync   map[string]*syncState // per dataset
-	lease  time.Duration
-	jobs   map[string]map[string]any
-	secDir string
+	Sc         *Scenario
+	H          *Hub
+	M          *Model
+	Stats      map[string]int64
+	trace      []byte
+	Start      time.Time
+	Pool       []string
+	sync       map[string]*syncState // per dataset
+	lease      time.Duration
+	jobs       map[string]map[string]any
+	secDir     string
 	superseded bool // the job sync of the current op was superseded by an HTTP start before it completed
 }
 
